@@ -624,6 +624,32 @@ func lineCheckDown(td *TD, gs *pokerface.GameState, cp *pokerface.PlayerState) (
 	return cp.AllowedActions[0], 0
 }
 
+// lineRaiseCallFold: pre-flop the first player to act raises the minimum, the next one calls, a player facing the
+// raise after that folds (three-handed: the big blind's fold closes the round and two players go on); later
+// rounds are checked down.
+func lineRaiseCallFold(td *TD, gs *pokerface.GameState, cp *pokerface.PlayerState) (string, int64) {
+	if hasStr(cp.AllowedActions, "pass") {
+		return "pass", 0
+	}
+	if gs.Status.Round == "preflop" {
+		acted := 0
+		for _, p := range gs.Players {
+			if p.Acted {
+				acted++
+			}
+		}
+		switch {
+		case acted == 0 && hasStr(cp.AllowedActions, "raise"):
+			return "raise", gs.Status.CurrentWager + gs.Status.PreviousRaiseSize
+		case acted == 1 && hasStr(cp.AllowedActions, "call"):
+			return "call", 0
+		case acted >= 2 && hasStr(cp.AllowedActions, "fold"):
+			return "fold", 0
+		}
+	}
+	return lineCheckDown(td, gs, cp)
+}
+
 func lineAllIn(td *TD, gs *pokerface.GameState, cp *pokerface.PlayerState) (string, int64) {
 	switch {
 	case hasStr(cp.AllowedActions, "pass"):
